@@ -7,7 +7,8 @@ import PxProofs.BytesLemmas
 `splitN1` / `splitAll1` / `join` (Python `split(sep[, n])`, `sep.join`),
 `splitOnceSeq` (`split(b'://', 1)`), `pyInt` on digit strings and on strings
 with a foreign byte, `utf8Valid` on ASCII, the decimal renderer of the
-specification, and `Url.parseAuthority` (= `Url._parse`) case by case.
+specification, and `Url.parseAuthority` (= `Url._parse`) case by case
+(continued in `UrlIntLemmas`, `UrlAuthLemmas`, `UrlParseLemmas`).
 Own namespace so that nothing clashes with `PxProofs/BytesLemmas.lean`.
 -/
 namespace Px.UrlL
@@ -76,7 +77,7 @@ theorem splitN1_no_sep (sep : UInt8) (n : Nat) (x : Bytes) (hn : x.count sep ≤
       · exact ha
       · refine ih r ?_ l hl
         subst hx
-        simp [List.count_append, List.count_cons] at hn
+        simp [List.count_append] at hn
         omega
 
 /-- splitting `x ++ sep ++ y` when `y` has no separator: the parts of `x`, then `y` -/
@@ -100,7 +101,7 @@ theorem splitN1_append_last (sep : UInt8) (n : Nat) (x y : Bytes) (hy : sep ∉ 
       congr 1
       apply ih
       subst hx
-      simp [List.count_append, List.count_cons] at hn
+      simp [List.count_append] at hn
       omega
 
 theorem count_le_length' (sep : UInt8) (x : Bytes) : x.count sep ≤ x.length := List.count_le_length
@@ -124,7 +125,7 @@ theorem splitN1_fuel (sep : UInt8) (n m : Nat) (x : Bytes) (hn : x.count sep ≤
       obtain ⟨a, r⟩ := p
       obtain ⟨hx, ha⟩ := (splitOnce1_some_iff sep x a r).1 h
       have hc : x.count sep = r.count sep + 1 := by
-        subst hx; simp [List.count_append, List.count_cons, List.count_eq_zero_of_not_mem ha]
+        subst hx; simp [List.count_append, List.count_eq_zero_of_not_mem ha]
       cases m with
       | zero => omega
       | succ m =>
@@ -138,7 +139,7 @@ theorem splitAll1_append_last (sep : UInt8) (x y : Bytes) (hy : sep ∉ y) :
     splitAll1 sep (x ++ sep :: y) = splitAll1 sep x ++ [y] := by
   unfold splitAll1
   have hc : (x ++ sep :: y).count sep = x.count sep + 1 := by
-    simp [List.count_append, List.count_cons, List.count_eq_zero_of_not_mem hy]
+    simp [List.count_append, List.count_eq_zero_of_not_mem hy]
   have hl : (x ++ sep :: y).length = x.length + y.length + 1 := by simp; omega
   have hx := count_le_length' sep x
   rw [splitN1_append_last sep _ x y hy (by rw [hl]; omega)]
